@@ -36,6 +36,7 @@ class Ctx:
         self.rng = rng
         self.profile = profile
         self.index = index
+        self.tame = False        # only constructs every backend's generator copes with (matrix profile)
         self.decls = []
         self.n = 0
         self.features = set()
@@ -99,6 +100,8 @@ def gen_enum(ctx, width=None, shape=None, first_ok=True):
         cand += [rng.randint(0, m) for _ in range(6)]
         cand += [1 << k for k in range(0, width, max(1, width // 5))]
         cand = [c for c in cand if 0 <= c <= m]
+        if ctx.tame:
+            cand = [c for c in cand if c < (1 << 31)] or [0, 1, 2]
         rng.shuffle(cand)
         nvals = rng.randint(1, min(6, m + 1))
         ranges = []
@@ -107,7 +110,7 @@ def gen_enum(ctx, width=None, shape=None, first_ok=True):
                 s = rng.choice([0, rng.randint(0, m), m - rng.randint(1, min(m, 40))])
                 s = max(0, min(s, m - 1))
                 e = min(m, s + rng.choice([1, 2, 3, 9, 15, 255, rng.randint(1, 1000)]))
-                if e <= s:
+                if e <= s or (ctx.tame and e >= (1 << 31)):
                     continue
                 if any(not (e < rs or s > re) for rs, re in ranges):
                     continue
@@ -190,6 +193,10 @@ class Body:
         if self.run % 8 == 0:
             self.run = 0
             return
+        if self.ctx.tame:
+            w = 8 - self.run % 8
+            self.add_bits(A.reserved(w), w)
+            return
         need = 8 - self.run % 8
         extra = 0
         if rng.random() < 0.2 and self.run + need + 8 <= 64:
@@ -260,6 +267,11 @@ class Body:
 
     def random_bits(self, n=1):
         rng = self.ctx.rng
+        if self.ctx.tame:
+            for _ in range(n):
+                self.align()
+                self.scalar(rng.choice([8, 16, 32]))
+            return
         for _ in range(n):
             k = rng.random()
             if k < 0.5:
@@ -1139,6 +1151,9 @@ def p_matrix(ctx):
     array arm of every generator."""
     rng = ctx.rng
     part = ctx.index % MATRIX_PARTS
+    # the parts every backend supports are written without the constructs the Java / C++ generators are
+    # known to choke on (odd fixed fields, enum literals >= 2^31): there the matrix is about arrays
+    ctx.tame = part in (0, 1, 5)
     scalar_w = [16, 24, 32, 40, 48, 56, 64]
     rng.shuffle(scalar_w)
     enum_w = [8, 16, 24, 64, 32, 40]
